@@ -76,10 +76,20 @@ def callJson (puso : Bool) (c : Call Float) : Json :=
       Json.mkObj (common ++ [("h", Json.arr (q.h.map ratJson).toArray), ("nn", natsJson q.nn),
         ("nb", natsJson q.nb), ("J", Json.arr (q.J.map ratJson).toArray)])
 
+/-- optional field `"mapping"`: `obj.set_mapping(...)` / `obj.set_reverse_mapping(...)` after the object was
+built, given as the list of labels read by integer index (`mapping[i]` is `reverse_mapping[i]`) -/
+def setMappingOfJson (j : Json) (o : Obj) : Except String Obj :=
+  match j.getObjVal? "mapping" with
+  | .error _ => pure o
+  | .ok m => if m.isNull then pure o else do pure { o with mapping := ← natList m }
+
 /-- op `c11_anneal` -/
 def handleAnneal (j : Json) : Except String Json := do
   let fn ← j.getObjVal? "fn" >>= Json.getStr?
-  let obj ← objOfJson j
+  let obj0 ← objOfJson j
+  let obj : Except Err Obj ← match obj0 with
+    | .error e => pure (.error e)
+    | .ok o => do pure (.ok (← setMappingOfJson j o))
   let na ← j.getObjVal? "num_anneals" >>= Json.getInt?
   let sched ← j.getObjVal? "sched" >>= schedOfJson
   let init ← j.getObjVal? "init" >>= initOfJson
